@@ -56,6 +56,9 @@ def run(report, db, tier):
     plugin_arm(report, db, M, P, fi, arms)
     success_arm(report, db, M, fi, arms)
     disconnect_arm(report, db, S, M, fi, arms)
+    # the helper the disconnect arm hands the server's version to
+    from .c09 import mismatch
+    mismatch(report, db, cg, M, P, rule_id='R10.5m')
     stateless(report, db, M, fi, paths)
     transport_lookup(report, db, cg, M)
 
